@@ -41,27 +41,48 @@ var progress atomic.Int64
 
 type countingDAG struct{ ipld.DAGService }
 
+// The DAG service honours contexts like a network-backed one: a request made
+// with a context that is already done fails with ctx.Err() (returned unwrapped,
+// as the in-tree services do), so a reader that keeps walking with the
+// cancelled context of an earlier CtxReadFull call cannot succeed by accident.
 func (c countingDAG) Get(ctx context.Context, k cid.Cid) (ipld.Node, error) {
 	progress.Add(1)
+	if err := ctx.Err(); err != nil {
+		deadCtxRequests.Add(1)
+		return nil, err
+	}
 	return c.DAGService.Get(ctx, k)
 }
 
 func (c countingDAG) GetMany(ctx context.Context, ks []cid.Cid) <-chan *ipld.NodeOption {
 	progress.Add(1)
+	out := make(chan *ipld.NodeOption, len(ks)+1)
+	if err := ctx.Err(); err != nil {
+		deadCtxRequests.Add(1)
+		out <- &ipld.NodeOption{Err: err}
+		close(out)
+		return out
+	}
 	in := c.DAGService.GetMany(ctx, ks)
-	out := make(chan *ipld.NodeOption, len(ks))
 	go func() {
 		defer close(out)
 		for o := range in {
 			progress.Add(1)
+			if err := ctx.Err(); err != nil {
+				out <- &ipld.NodeOption{Err: err}
+				return
+			}
 			out <- o
 		}
 	}()
 	return out
 }
 
+// deadCtxRequests counts block requests that arrived with a done context.
+var deadCtxRequests atomic.Int64
+
 func run(c *vlib.Ctx) {
-	c.Rule("histories of 6-30 ops {Read(buf 0..2x chunk, sometimes > file), CtxReadFull, Seek(target in [-size-2, size+66] via SeekStart/SeekCurrent/SeekEnd, rare invalid whence), WriteTo} on a DagReader over (a) importer-built files: balanced|trickle x width 2..8 (sometimes 174) x size-N/rabin chunker x raw|dag-pb leaves x CID v0/v1/blake2b, length 0 .. 256 KiB quick / 4 MiB thorough incl. chunk and width^depth boundaries +-1; (b) DAGs produced by DagModifier sessions (overwrite, append, sparse extension, truncation); distinct = FNV of config + op list; non-trivial = DAG depth >= 2 and a Seek that lands strictly inside the leaf that is currently partially consumed")
+	c.Rule("histories of 6-30 ops {Read(buf 0..2x chunk, sometimes > file), CtxReadFull (per-call context cancelled right after the call; the DAG service fails requests made with a done context), Seek(target in [-size-2, size+66] via SeekStart/SeekCurrent/SeekEnd, rare invalid whence), WriteTo} on a DagReader over (a) importer-built files: balanced|trickle x width 2..8 (sometimes 174) x size-N/rabin chunker x raw|dag-pb leaves x CID v0/v1/blake2b, length 0 .. 256 KiB quick / 4 MiB thorough incl. chunk and width^depth boundaries +-1; (b) DAGs produced by DagModifier sessions (overwrite, append, sparse extension, truncation); distinct = FNV of config + op list; non-trivial = DAG depth >= 2 and a Seek that lands strictly inside the leaf that is currently partially consumed")
 	c.Cases("importer", c.N(2200, 10000), func(k *vlib.Case) { oneCase(k, false) })
 	c.Cases("modifier-dag", c.N(800, 3000), func(k *vlib.Case) { oneCase(k, true) })
 }
@@ -322,6 +343,10 @@ func oneCase(k *vlib.Case, fromModifier bool) {
 			w.opRead(w.pickBuf(), false)
 		case x < 46:
 			w.opRead(w.pickBuf(), true)
+			if r.Chance(1, 5) && !k.Failed() && !k.C.Aborted() {
+				w.opWriteTo() // first walking operation after the cancelled per-call context
+				i++
+			}
 		case x < 92:
 			w.opSeek()
 		default:
@@ -337,6 +362,7 @@ func oneCase(k *vlib.Case, fromModifier bool) {
 		}
 	}
 	k.C.Count("ops", int64(w.ops))
+	k.C.Count("requests_with_done_context", deadCtxRequests.Swap(0))
 	if !k.Failed() && w.depth >= 2 && w.sawSeekInPartial {
 		k.Nontrivial()
 	}
@@ -454,7 +480,12 @@ func (w *world) opRead(n int, full bool) {
 		var m int
 		var err error
 		if full {
-			m, err = w.dr.CtxReadFull(w.ctx, buf)
+			// per-call context, cancelled as soon as the call returns (the
+			// usual `defer cancel()` of callers); the reader itself was created
+			// with a live context, so nothing later may depend on this one
+			cctx, cancel := context.WithCancel(w.ctx)
+			m, err = w.dr.CtxReadFull(cctx, buf)
+			cancel()
 		} else {
 			m, err = w.dr.Read(buf)
 		}
